@@ -39,7 +39,7 @@ EverUp(seq) == IF seq = <<>> THEN {} ELSE (IF Head(seq).op = "up" THEN {Head(seq
 
 Pres == {s \in UNION {[1..n -> PreSteps] : n \in 1..3} : ValidPre(s, {})}
 Crashes == {99, 0, 1, 2, 10, 12}          \* 99: no crash; k: the build dies once k chunks are stored
-BuildFaults == {"none", "chunkput1", "chunkput2"}
+BuildFaults == {"none", "chunkput1", "chunkput2", "rootget1", "rootget2"}   \* rootgetN: the N-th read of a root blob during the scan fails once
 DeleteFaults == {"none", "attr1", "attr2", "attr3", "del1", "list1"}
 
 \* rf: "scanlist" = the first resumed build after the crash hits a transient failure of a metadata listing
@@ -80,11 +80,11 @@ Pick ==
                 \E rf \in (IF crash = 99 THEN {"none"} ELSE {"none", "scanlist"}) :
                 case' = Mk(pre, 1, crash, "none", bw, "none", 0, crash = 99, rf)
        ELSE \E pre \in Pres, c \in ChunkSizes, crash \in Crashes, bw \in {{}} \cup {{b} : b \in Bundles} :
-              \E f \in {"none"} \cup (IF crash = 99 THEN {"chunkput1", "attr1", "attr2", "del1"} ELSE {}) :
+              \E f \in {"none"} \cup (IF crash = 99 THEN {"chunkput1", "rootget1", "attr1", "attr2", "del1"} ELSE {}) :
                 \E pb \in (IF crash = 99 /\ f = "none" THEN 0..Len(pre) ELSE {0}) :
                 \E inc \in (IF crash = 99 /\ f = "none" /\ pb = 0 /\ bw # {} THEN BOOLEAN ELSE {FALSE}) :
                 \E rf \in (IF crash \in {1, 2} /\ bw = {} THEN {"none", "scanlist"} ELSE {"none"}) :
-                case' = Mk(pre, c, crash, IF f = "chunkput1" THEN f ELSE "none", bw,
+                case' = Mk(pre, c, crash, IF f \in {"chunkput1", "rootget1"} THEN f ELSE "none", bw,
                            IF f \in {"attr1", "attr2", "del1"} THEN f ELSE "none", pb, inc, rf)
   /\ stage' = "done"
   /\ UNCHANGED pvars
